@@ -331,8 +331,14 @@ def mon_c11(ex, info, col):
                         # the higher-priority task needs a (worker, facility) pair: claimed for single-task components
                         # that are placed, when a FREE eligible facility the worker can operate is still there
                         cn = info.task_comp.get(high)
-                        if cn is None or len(info.comp_tasks[cn]) != 1:
+                        if cn is None:
                             continue
+                        if len(info.comp_tasks[cn]) != 1:
+                            # a component with several tasks: claimed only when it already stood (and stays) where the task can be served and none of its other tasks is active
+                            others = [x for x in info.comp_tasks[cn] if x != high]
+                            if su["components"][cn][1] is None or su["components"][cn][1] != sa["components"][cn][1] or info.comp_children.get(cn) \
+                                    or any(sa["tasks"][x][0] in (S.T_READY, S.T_WORKING) for x in others):
+                                continue
                         if info.comp_parents.get(cn) or (sa["components"][cn][1] != su["components"][cn][1] and su["components"][cn][1] is not None):
                             continue  # (a part may be carried along with its assembly later in the same allocation: where it is at the end of the step says nothing about its own turn)
                         wpn = sa["components"][cn][1]
@@ -462,7 +468,7 @@ def alloc_items(tier):
                     for j in ("1", "2"):  # only one of the two successors is declared the other way
                         out.append((dict(base_, link_api_for={j: api}), {"rule": rule, "max_time": 20}))
     # IDs and names that are unique per kind only (teams and workplaces numbered alike; two tasks of one name under different teams)
-    for sp in F.id_namespace_specs():
+    for sp in F.id_namespace_specs() + F.named_machine_specs() + F.half_wired_workplace_specs():
         for rule in ("SPT", "LPT", "TSLACK"):
             out.append((sp, {"rule": rule, "max_time": F.seq_bound(sp) + 8}))
     return out
